@@ -8,7 +8,7 @@ WHY = {"C03": {"accept", "errclass", "compile"}, "C04": {"tree", "paren", "resul
 TIERS = {
     "quick":    dict(mc_lang="MC_Lang_quick.cfg", mc_sent="MC_Sent_quick.cfg", tokN=4, nearN=4, juxtaN=3, wrapN=5, chars=[("full", 3), ("small", 4)],
                      sentN=5, chains=3, rtext=20000, rtoks=4000, maxlen=30),
-    "thorough": dict(mc_lang="MC_Lang_thorough.cfg", mc_sent="MC_Sent_thorough.cfg", tokN=4, nearN=5, juxtaN=3, wrapN=6, chars=[("full", 4)],
+    "thorough": dict(mc_lang="MC_Lang_thorough.cfg", mc_sent="MC_Sent_thorough.cfg", tokN=4, nearN=5, juxtaN=3, wrapN=5, chars=[("full", 4)],
                      sentN=6, chains=4, rtext=60000, rtoks=6000, maxlen=60),
 }
 
